@@ -70,6 +70,9 @@ func NewCommentReader(r io.Reader, startMatches, endMatches [][]byte, isComments
 		b: &bytes.Buffer{},
 	}
 
+	// a string or a region without any comment may be larger than bufio.MaxScanTokenSize.
+	v.s.Buffer(nil, int(^uint(0)>>1))
+
 	v.s.Split(func(data []byte, atEOF bool) (advance int, token []byte, err error) {
 		if atEOF && len(data) == 0 {
 			// read more.
